@@ -40,6 +40,9 @@ func c04Prepare(caseID int, idx int, behaviour, proto, launch string, managed, p
 		pcfg["exitDelayMs"] = 1000
 	case "busy-exit-1200":
 		pcfg["exitDelayMs"] = 1200
+	case "never-chatty":
+		// ignores the shutdown request and keeps logging to its stderr every 250 ms
+		pcfg["neverExit"], pcfg["shutdownChatMs"] = true, 250
 	case "never", "frozen":
 		pcfg["neverExit"] = behaviour == "never"
 	case "failed-handshake":
